@@ -20,3 +20,14 @@ func VerifReset() {
 	}
 	registryLock.Unlock()
 }
+
+// VerifStorage returns the storage behind a registered database (starting it
+// if needed), so that a harness can place a record that does not parse
+// directly into the storage.
+func VerifStorage(name string) (interface{}, error) {
+	c, err := getController(name)
+	if err != nil {
+		return nil, err
+	}
+	return c.storage, nil
+}
